@@ -23,12 +23,13 @@ theorem C16_run_once_if (c : LoopCfg) (s : St) :
     (afterSend c s).pc = if c.onlyOnce = true ∧ s.waiting = [] then .exited .ok else .sleep :=
   afterSend_pc c s
 
-/-- … in terms of segments: the `beforeInfo` segment of an iteration without upload, in only-once
+/-- … in terms of segments: the `beforeInfo` segment of an iteration without upload (nothing
+    new in the LMDB, and no snapshot overdue: `storage_force_snapshot_interval`), in only-once
     mode with an empty waiting set, ends the loop. -/
 theorem C16_run_once_exits (c : LoopCfg) (b : Bucket) (s : St) (i : In)
-    (hpc : s.pc = .beforeInfo) (hno : s.env.lastTxn ≤ s.lastSynced)
+    (hpc : s.pc = .beforeInfo) (hno : s.env.lastTxn ≤ s.lastSynced) (hnf : s.forceArmed = false)
     (ho : c.onlyOnce = true) (hw : s.waiting = []) : (go c b s i).1.pc = .exited .ok := by
-  rw [(go_pc c b s i).1, goRaw_beforeInfo hpc, if_neg (by omega)]
+  rw [(go_pc c b s i).1, goRaw_beforeInfo_unarmed hpc hnf, if_neg (by omega)]
   simp only
   rw [afterSend_pc, if_pos ⟨ho, hw⟩]
 
